@@ -7,6 +7,7 @@ from typing import TYPE_CHECKING, FrozenSet, Tuple
 
 from fontTools.misc.loggingTools import Timer
 
+from ufo2ft import _verif
 from ufo2ft.util import (
     _getNewGlyphFactory,
     _GlyphSet,
@@ -234,6 +235,7 @@ class BaseFilter:
                 len(modified),
                 "" if num == 1 else "s",
             )
+        _verif.emit("FilterCall", filter=self, font=font, glyphSet=glyphSet, modified=modified)
         return modified
 
     @classmethod
@@ -373,6 +375,9 @@ class BaseIFilter(BaseFilter):
                 len(modified),
                 "" if num == 1 else "s",
             )
+        _verif.emit(
+            "IFilterCall", filter=self, fonts=fonts, glyphSets=glyphSets, modified=modified
+        )
         return modified
 
     @classmethod
